@@ -273,16 +273,8 @@ func (ic *inferContext) inferRelTypesFromPremise(premises []ast.Term, state *inf
 		if tpe.Equals(symbols.EmptyType) {
 			return nil, fmt.Errorf("type mismatch %v : left type %v right type %v", premise, leftTpe, rightTpe)
 		}
-		if leftVar, ok := t.Left.(ast.Variable); ok {
-			if err := nextState.addOrRefine(leftVar, tpe); err != nil {
-				return nil, err
-			}
-		}
-		if rightVar, ok := t.Right.(ast.Variable); ok {
-			if err := nextState.addOrRefine(rightVar, tpe); err != nil {
-				return nil, err
-			}
-		}
+		// An inequality holds for values outside the common type as well: it tells
+		// nothing about the type of either side.
 		return []*inferState{nextState}, nil
 	}
 	return nil, fmt.Errorf("unexpected state %v", premise)
